@@ -33,6 +33,7 @@ def run_entry(text, entry, judge=None, opts=None, extra_modules=(), guide=None):
     if opts.get('tape') is not None:
         ex.tape = opts['tape']
     ex.max_wall = opts.get('max_wall', 0)
+    ex.limit_is_hang = opts.get('limit_is_hang', False)
     ex.preempt_bound = opts.get('preempt_bound', 0)
     ex.preempt_range = opts.get('preempt_range')
     ex.race_detect = opts.get('race_detect', False)
@@ -52,7 +53,8 @@ def run_entry(text, entry, judge=None, opts=None, extra_modules=(), guide=None):
         err = traceback.format_exc()[-3000:]
     from collections import Counter
     pstat = Counter(r.status for r in ex.results)
-    bad_paths = [(r.status, r.detail) for r in ex.results if r.status in ('limit', 'unsupported', 'enum_limit')]
+    bad_paths = [(r.status, r.detail) for r in ex.results if r.status in ('limit', 'unsupported', 'enum_limit')
+                 and not (r.status == 'limit' and ex.limit_is_hang)]
     if bad_paths and status == 'done':
         status = 'inconclusive'
         err = '; '.join('%s: %s' % b for b in bad_paths[:3])
@@ -63,9 +65,24 @@ def run_entry(text, entry, judge=None, opts=None, extra_modules=(), guide=None):
                wall_s=round(time.time() - t0, 3), reached=dict(ex.reached), forks=ex.forks,
                steps=sum(r.steps for r in ex.results), funcs=sorted(ex.funcs_run),
                inputs=max([len(r.inputs) for r in ex.results] or [0]),
-               sample=_sample(ex), notes=_notes(ex))
+               sample=_sample(ex), notes=_notes(ex), out_digests=_digests(ex, opts.get('digest_tags', ())))
     res['_ex'] = ex
     return res
+
+
+def _digests(ex, tags):
+    if not tags:
+        return []
+    out = []
+    for r in ex.results[:5000]:
+        if r.status == 'ok':
+            d = {}
+            for tag, cells in r.outs:
+                if tag in tags:
+                    d[tag] = X.cells_digest(cells)
+            sched = getattr(r.state, 'sched_log', [])
+            out.append((d, list(sched)))
+    return out
 
 
 def _notes(ex):
